@@ -43,6 +43,7 @@ class Session:
         self.bounded = []
         self.noops = []
         self.inlined = set()
+        self.interpreted = set()
         self.used_contracts = set()
         self.used_lib = set()
         self.t0 = time.time()
@@ -80,6 +81,7 @@ class Session:
         unit.time += time.time() - t0
         self.noops.extend(engine.noops)
         self.inlined |= engine.used_inline
+        self.interpreted |= engine.interpreted
         self.used_contracts |= engine.used_contracts
         self.used_lib |= engine.used_lib
         if unit not in self.units:
